@@ -113,6 +113,10 @@ type script struct {
 	DieExitCode   int            `json:"die_exit_code"`
 	// client: pause after each request read from stdin (paces the runner's hand-over)
 	ReadDelayMS int `json:"read_delay_ms"`
+	// client: at every request, dial every server address seen so far and log how many accept (TCP servers only)
+	ProbeKnownPorts bool `json:"probe_known_ports"`
+	// client: fixed pause before every answer (keeps batches busy)
+	AnswerDelayMS int `json:"answer_delay_ms"`
 	// server: does not react to SIGTERM/SIGINT (logs that it was asked, then carries on); ends by itself after 60 s
 	IgnoreSigterm bool `json:"ignore_sigterm"`
 	StartDelayMS int      `json:"start_delay_ms"`
@@ -220,6 +224,9 @@ func runClient(sc *script) int {
 	actionOf := map[string]string{}
 	var actMu sync.Mutex
 	writeAnswer := func(resp *conformancev1.ClientCompatResponse) {
+		if sc.AnswerDelayMS > 0 {
+			time.Sleep(time.Duration(sc.AnswerDelayMS) * time.Millisecond)
+		}
 		if sc.AnswerDelayMaxMS > 0 {
 			outMu.Lock()
 			d := rng.next(sc.AnswerDelayMaxMS + 1)
@@ -264,6 +271,8 @@ func runClient(sc *script) int {
 		}
 	}()
 	reads := 0
+	known := map[string]bool{}
+	var knownMu sync.Mutex
 	if sc.ExitAfterReads == 0 {
 		logEv("client_exit", map[string]any{"code": sc.ExitCode, "why": "exit_after_reads"})
 		os.Exit(sc.ExitCode)
@@ -290,6 +299,27 @@ func runClient(sc *script) int {
 			"tls": len(req.ServerTlsCert) > 0, "client_cert": req.ClientTlsCreds != nil, "name_header": hdr, "stream_type": int(req.StreamType), "codec": int(req.Codec), "compression": int(req.Compression), "bytes": len(b) + 4}
 		if sc.Probe {
 			ev["probe"] = probe(req)
+		}
+		if sc.ProbeKnownPorts && req.HttpVersion != conformancev1.HTTPVersion_HTTP_VERSION_3 {
+			knownMu.Lock()
+			known[net.JoinHostPort(req.Host, strconv.Itoa(int(req.Port)))] = true
+			var addrs []string
+			for a := range known {
+				addrs = append(addrs, a)
+			}
+			knownMu.Unlock()
+			alive := 0
+			var aliveAddrs []string
+			for _, a := range addrs {
+				d := net.Dialer{Timeout: 500 * time.Millisecond}
+				if c, err := d.Dial("tcp", a); err == nil {
+					_ = c.Close()
+					alive++
+					aliveAddrs = append(aliveAddrs, a)
+				}
+			}
+			ev["known_servers_alive"] = alive
+			ev["alive_addrs"] = aliveAddrs
 		}
 		logEv("client_recv", ev)
 		if sc.ReadDelayMS > 0 {
